@@ -219,8 +219,11 @@ func nsApplyOp(rt *rapid.T, h *nsHist, op string) {
 		}
 		p := nsPickByClass(rt, hist, "replay")
 		from := p.From
-		if rapid.IntRange(0, 3).Draw(rt, "replay.foreign") == 0 {
+		switch rapid.IntRange(0, 5).Draw(rt, "replay.foreign") {
+		case 0:
 			from = netip.AddrPortFrom(netip.AddrFrom4([4]byte{192, 0, 2, byte(1 + rapid.IntRange(0, 3).Draw(rt, "replay.src"))}), 5555)
+		case 1:
+			from = netip.AddrPortFrom(p.From.Addr(), p.From.Port()+uint16(rapid.SampledFrom([]int{1, 2, 1000}).Draw(rt, "replay.port")))
 		}
 		h.note("replay %v from %v", p, from)
 		nsDeliverUnauth(rt, h, p, from, p.To, "replay")
@@ -516,8 +519,12 @@ func nsMutateOp(rt *rapid.T, h *nsHist) {
 		}
 	}
 	from := p.From
-	if rapid.IntRange(0, 2).Draw(rt, "mut.foreign") == 0 {
+	switch rapid.IntRange(0, 5).Draw(rt, "mut.foreign") {
+	case 0, 1:
 		from = netip.AddrPortFrom(netip.AddrFrom4([4]byte{198, 51, 100, byte(1 + rapid.IntRange(0, 3).Draw(rt, "mut.src"))}), 6666)
+	case 2:
+		// the genuine sender's host, another UDP port (somebody else behind the same NAT, another process)
+		from = netip.AddrPortFrom(p.From.Addr(), p.From.Port()+uint16(rapid.SampledFrom([]int{1, 2, 1000}).Draw(rt, "mut.port")))
 	}
 	h.mutants++
 	if mh, ok := nsHeaderOf(data); ok && mh.Version == header.Version && mh.IsValidSubType() {
